@@ -608,6 +608,86 @@ def concurrent_end_runs(chk):
     chk.cov["concurrent_end_scenarios"] = n
 
 
+def request_vs_close_runs(chk):
+    """a thread's request racing with close() by another thread of the same side: the requesting thread is stopped before each
+    statement of the request path while close() runs to completion; the request must then end with its own reply or with
+    EOFError (or its timeout) - nothing else, and never hang"""
+    import threading
+    import time
+    import rpyc
+    from rpyc.core.protocol import Connection
+    from rpyc.core.async_ import AsyncResult
+    from rpyc.core.stream import PipeStream
+    from rpyc.core.async_ import AsyncResultTimeout
+    from harness import linepause as lp
+    funcs = [Connection.sync_request, Connection.async_request, Connection._async_request, Connection._send, Connection.serve,
+             Connection._dispatch, Connection._seq_request_callback, AsyncResult.wait, AsyncResult.__call__]
+    n = reached = 0
+    try:
+        for func in funcs:
+            for (ln, text) in lp.lines_of(func):
+                class Svc(rpyc.Service):
+                    def exposed_echo(self, x):
+                        return x
+                s1, s2 = PipeStream.create_pair()
+                c1 = rpyc.connect_stream(s1, rpyc.VoidService, config={"sync_request_timeout": 3})
+                c2 = rpyc.connect_stream(s2, Svc)
+                srv = threading.Thread(target=lambda: _quiet(c2.serve_all), daemon=True)
+                srv.start()
+                out = []
+                try:
+                    echo = c1.root.echo
+                except Exception:
+                    for c in (c1, c2):
+                        _quiet(c.close)
+                    continue
+
+                def a():
+                    try:
+                        out.append(("ok", echo(41)))
+                    except BaseException as ex:  # noqa
+                        out.append(("exc", ex))
+                bp = lp.arm(func, ln, thread_filter=lambda th: th.name == "verif-R")
+                t = threading.Thread(target=a, daemon=True, name="verif-R")
+                t.start()
+                hit = bp.wait_hit(0.6)
+                if hit:
+                    closer = threading.Thread(target=lambda: _quiet(c1.close), daemon=True)
+                    closer.start()
+                    closer.join(0.4)
+                    bp.release()
+                    closer.join(4)
+                else:
+                    bp.release()
+                t.join(6)
+                lp.disarm_all()
+                chk.evaluated()
+                n += 1
+                if hit:
+                    reached += 1
+                    chk.distinct(("request-vs-close", func.__qualname__, text))
+                    bad = None
+                    if t.is_alive():
+                        bad = ("hang", "the request is still blocked 6 s after close() returned (its timeout is 3 s)")
+                    elif not out:
+                        bad = ("lost", "the requesting thread ended without an outcome")
+                    elif out[0][0] == "ok" and out[0][1] != 41:
+                        bad = ("value", "the request returned %r, the peer sent 41" % (out[0][1],))
+                    elif out[0][0] == "exc" and not isinstance(out[0][1], (EOFError, AsyncResultTimeout)):
+                        bad = ("exception", "the request failed with %s: %s instead of EOFError" % (type(out[0][1]).__name__, out[0][1]))
+                    if bad:
+                        chk.violation("request-vs-close:%s" % bad[0], "C11 [a request of one thread racing with close() by another thread "
+                                      "of the same side; the requester stopped before `%s` (%s)] %s" % (text, func.__qualname__, bad[1]),
+                                      {"workload": "request-vs-close", "func": func.__qualname__, "text": text})
+                    else:
+                        chk.validated()
+                for c in (c1, c2):
+                    _quiet(c.close)
+    finally:
+        lp.shutdown()
+    chk.cov["request_vs_close"] = {"scenarios": n, "window_reached": reached}
+
+
 def _quiet(f):
     try:
         f()
@@ -673,6 +753,7 @@ def main():
     chk.cov["fault_positions"] = total_pos
     real_pipe_runs(chk)
     concurrent_end_runs(chk)
+    request_vs_close_runs(chk)
     # a connection shared by threads (RpycServe's setting): the peer vanishes at an arbitrary moment
     from harness.drivers import serve_common as svc
     for cfgf, what in (("MC_RpycServeEof_2.cfg", "2 client threads"), ("MC_RpycServeEof_1bg.cfg", "1 client + background serving thread")):
